@@ -610,10 +610,10 @@ HASHES = ("md5", "sha1", "sha224", "sha256", "sha384", "sha512")
             encodes=["cincoconfig.fields.secure_field.ChallengeField._validate",
                      "cincoconfig.fields.secure_field.ChallengeField.to_basic",
                      "cincoconfig.fields.secure_field.ChallengeField.to_python"],
-            what="ChallengeField(algorithm a) given a DigestValue made with algorithm b (all 36 pairs; text or "
-                 "byte-string secret): an ACCEPTED value survives to_python(to_basic(.)) as an equal value that "
+            what="ChallengeField(algorithm a) given a DigestValue made with algorithm b, assigned or as the declared "
+                 "default (all 36 pairs; text or byte-string secret): an ACCEPTED value survives to_python(to_basic(.)) as an equal value that "
                  "still verifies the secret and is accepted again (the on-disk form holds salt and digest only)")
-def challenge_digest_algorithm(ai: int, bi: int, as_bytes: bool) -> bool:
+def challenge_digest_algorithm(ai: int, bi: int, as_bytes: bool, as_default: bool = False) -> bool:
     """
     pre: 0 <= ai < 6 and 0 <= bi < 6
     post: _
@@ -630,12 +630,23 @@ def challenge_digest_algorithm(ai: int, bi: int, as_bytes: bool) -> bool:
     secret = b"s3cret" if as_bytes else "s3cret"
     with untraced():
         cfg = _cfg()
-        field = ChallengeField(a)
         value = DigestValue.create(secret, getattr(hashlib, b))
-        try:
-            got = field.validate(cfg, value)
-        except ValueError:
-            return hold("reject", a != b, "a digest value of the field's own algorithm was rejected")
+        if as_default:
+            # the same value as the field's DECLARED DEFAULT: what a fresh configuration holds must survive too
+            schema = Schema()
+            schema.pw = ChallengeField(a, default=value)
+            field = schema.pw
+            try:
+                cfg = schema()
+            except (TypeError, ValueError):
+                return hold("reject", a != b, "a default digest of the field's own algorithm was rejected")
+            got = cfg.pw
+        else:
+            field = ChallengeField(a)
+            try:
+                got = field.validate(cfg, value)
+            except ValueError:
+                return hold("reject", a != b, "a digest value of the field's own algorithm was rejected")
         back = field.to_python(cfg, field.to_basic(cfg, got))
         ok = True
         try:
@@ -646,3 +657,52 @@ def challenge_digest_algorithm(ai: int, bi: int, as_bytes: bool) -> bool:
              lambda: "accepted %s digest in a %s field does not survive its on-disk form (verifies: %r)" % (b, a, ok))
         hold("accept", field.validate(cfg, back) == back, "reloaded value not accepted again")
     return True
+
+
+# --------------------------------------------------------------------------- secrets of every length
+@obligation(prop="C05", sites=("rt",), budget={"quick": 200, "thorough": 400}, stubs=("FakeFS",),
+            encodes=["cincoconfig.fields.secure_field.SecureField.to_basic", "cincoconfig.fields.secure_field.SecureField.to_python"],
+            what="SecureField (xor / aes / best), scalar and as list item / dict value: to_python(to_basic(v)) == v for "
+                 "secrets of EVERY length 1..66 bytes (block-aligned lengths 16/32/48/64 and the key length included; "
+                 "ASCII or ending in a two-byte character); the ciphers run concretely, one path per length")
+def secret_codec_every_length(n: int, mi: int, wide: bool) -> bool:
+    """
+    pre: 1 <= n <= 66 and 0 <= mi <= 2
+    post: _
+    """
+    from cincoconfig import DictField, ListField
+    from vf.hlib.stubs import untraced
+    method = ("xor", "aes", "best")[0]
+    for i, m in enumerate(("xor", "aes", "best")):
+        if mi == i:
+            method = m
+    if wide and n < 2:
+        skip("a two-byte character needs two bytes")
+    size = 1
+    for k in range(1, 67):       # the solver decides n; everything below works on the concrete size
+        if n == k:
+            size = k
+    n = size
+    wide = True if wide else False
+    text = ("x" * (n - 2) + "é") if wide else "x" * n
+    with untraced():
+        fs = FakeFS(files={"/k/c05.key": bytes(range(1, 33))}, dirs=["/k"])
+        with fs.patched():
+            schema = Schema()
+            schema.s = SecureField(method=method)
+            schema.ls = ListField(SecureField(method=method))
+            schema.ds = DictField(StringField(), SecureField(method=method))
+            cfg = schema(key_filename="/k/c05.key")
+            ok = len(text.encode()) == n
+            detail = None
+            for key, value in (("s", text), ("ls", [text, "pw"]), ("ds", {"k": text})):
+                field = schema[key]
+                try:
+                    accepted = field.validate(cfg, value)
+                    back = field.to_python(cfg, field.to_basic(cfg, accepted))
+                    good = back == accepted and field.validate(cfg, back) == accepted
+                except Exception as exc:  # noqa: BLE001
+                    good, back = False, exc
+                if not good:
+                    ok, detail = False, (key, back)
+    return hold("rt", ok, lambda: "%s secret of %d bytes does not survive its on-disk form: %r" % (method, n, detail))
